@@ -380,7 +380,7 @@ def sampler_replay_guard(repo: Repo, rep, P: str):
                 continue
             # length predicate
             if isinstance(c, ast.Compare) and len(c.ops) == 1 and isinstance(c.left, ast.Call) and norm(c.left.func) == "len" \
-                    and dparam is not None and norm(c.left.args[0]) == dparam:
+                    and (dparam is not None and norm(c.left.args[0]) == dparam or norm(c.left.args[0]) == "chunk.chdt"):
                 try:
                     k = repo.fold(c.comparators[0], ci=samp)
                 except NotConst:
